@@ -48,6 +48,8 @@ def plan(tier, seed):
     ch.append({"key": "builder-kwargs", "kind": "kwargs", "cost": 300})
     for first in range(len(EVENTS)):
         ch.append({"key": f"hist/{first}", "kind": "hist", "first": first, "cost": len(EVENTS) ** (BOUNDS[tier]["hist_depth"] - 1)})
+    for first in range(len(TWO_EVENTS)):
+        ch.append({"key": f"two-profiles/{first}", "kind": "two", "first": first, "cost": len(TWO_EVENTS) ** (BOUNDS[tier]["hist_depth"] - 1)})
     ch.append({"key": "uncached", "kind": "uncached", "cost": 1500})
     return ch
 
@@ -407,6 +409,49 @@ def chunk_hist(chunk, acc):
     acc.sample({"history": [list(first[:3]), ["read", "as_dict"], ["opt", "jitter", "10"], ["read", "properties"]], "invariant": "as_dict() == as_dict(parse(reference rendering))"})
 
 
+# ---- two live profiles: what one profile reports must not depend on what is done with another one ------------------
+
+TWO_EVENTS = (("A", EVENTS[0]), ("B", EVENTS[1]), ("A", EVENTS[4]), ("B", EVENTS[5]), ("A", EVENTS[8]), ("B", EVENTS[8]), ("B", EVENTS[2]), ("A", EVENTS[10]))
+
+
+def run_two(acc, cp, hist):
+    acc.transitions += len(hist)
+    case = {"kind": "two", "events": [[w, list(e[:3]) + ([e[3]] if len(e) > 3 else [])] for w, e in hist]}
+    try:
+        profs = {"A": cp.C2Profile(), "B": cp.C2Profile.from_text('set sample_name "B";')}
+        per = {"A": [], "B": [("opt", "sample_name", "B")]}
+        for who, ev in hist:
+            apply_event(cp, profs[who], ev)
+            if ev[0] != "read":
+                per[who].append(ev)
+        final = {w: copy.deepcopy(profs[w].as_dict()) for w in ("A", "B")}
+        again = {w: copy.deepcopy(profs[w].as_dict()) for w in ("B", "A")}
+    except Exception as e:  # noqa
+        acc.case(repr(hist), outcome="exc")
+        acc.fail("C11/two-profiles/exception", case, "no exception", f"{type(e).__name__}: {str(e)[:200]}")
+        return
+    acc.case(repr(hist), nontrivial=any(e[0] != "read" for _, e in hist), outcome=repr(sorted(final["A"].items()))[:200])
+    for w in ("A", "B"):
+        sent = reference_sentence(cp, per[w])
+        for label, d in (("first", final[w]), ("after-reading-the-other", again[w])):
+            why = RP.compare_dict(d, sent)
+            if why:
+                acc.fail("C11/two-profiles/one-profile-reports-the-other", dict(case, profile=w, read=label), why, repr(d)[:300])
+                return
+
+
+def chunk_two(chunk, acc):
+    from vmc import profile_env
+
+    cp = profile_env.install(True)
+    depth = BOUNDS[acc.tier]["hist_depth"]
+    first = TWO_EVENTS[chunk["first"]]
+    for rest in sequences(TWO_EVENTS, depth - 1):
+        acc.states += 1
+        run_two(acc, cp, (first,) + rest)
+    acc.sample({"two_profiles": [["A", "set sleeptime"], ["B", "read as_dict"], ["A", "read as_dict"]], "oracle": "each profile's dictionary matches its own modifications, before and after the other one is read"})
+
+
 def chunk_uncached(chunk, acc):
     from vmc import profile_env
 
@@ -436,6 +481,8 @@ def replay(case):
     if case["kind"] == "history":
         hist = tuple(tuple(e) for e in case["events"])
         run_history(a, cp, hist)
+    elif case["kind"] == "two":
+        run_two(a, cp, tuple((w, tuple(e)) for w, e in case["events"]))
     elif case["kind"] == "sentence":
         check_sentence(a, cp, RP.parse_tokens(case["tokens"]), "replay")
     else:
